@@ -34,26 +34,33 @@ import dns.resolver
 import dns.rrset
 
 BOUNDS = (
-    "Scripted transports + fake clock under the real sync and asyncio resolvers.  Exhaustive: "
-    "the prefix tree of all per-query outcome sequences over the 11-letter alphabet {answer, "
-    "no-data, NXDOMAIN, YXDOMAIN, SERVFAIL, REFUSED, malformed (FormError from the transport), "
-    "malformed (17-CNAME chain), truncation, timeout, network error} up to depth 3 (quick) / 4 "
-    "(thorough; depth 5 on a 1-2 server sub-grid while time remains), pruned where the resolution "
-    "ends before the script does (so each distinct behaviour is run once; after the script every "
-    "query times out until the lifetime expires), for 1-3 nameservers (Do53 objects, address "
-    "strings, one DoH) x a settings grid (search list 0/2 entries, ndots 1/2, relative/absolute "
-    "qname, retry_servfail, tcp, raise_on_no_answer, cache none/Cache/LRUCache, lifetime 5/timeout 2 "
-    "and lifetime 1/timeout 0.5 with 0.25 s steps so the lifetime boundary is hit exactly): 26 "
-    "settings quick, the full 2^6 x 3 grid thorough (until the time budget).  Each cached setting is "
-    "followed by a second resolution on the same resolver inside and after the TTL.  Seeded: random "
-    "settings and scripts of length <= 14 with CNAME chains 0-18, random TTLs / SOA placement, rcodes, "
-    "rdtypes A/AAAA/MX/TXT/CNAME, clock steps in {0,0.01,0.25,0.5,1,1.99} (1500 quick / until budget "
-    "thorough).  Direct: _get_qnames_to_try on 1-4 label names x search arg x default x 3 search lists "
-    "x 2 domains x ndots {None,0..4} (exhaustive, 2160); resolve_chaining on chain lengths 0-18 x "
-    "{answer, no-data, NXDOMAIN} x TTL patterns + CNAME loops; _compute_timeout on a boundary grid. "
-    "rotate is off, clock steps are non-negative, TSIG/EDNS off, trio twin not run (asyncio only).  "
-    "'Never asked again' is evaluated per candidate name (the server list is re-armed for every "
-    "candidate name by design)."
+    "Scripted transports + fake clock under the real sync and asyncio resolvers (real _Resolution, "
+    "Answer/resolve_chaining, Cache/LRUCache, Do53Nameserver/DoHNameserver; only dns.query/dns.asyncquery "
+    "udp/tcp/https and the name `time` inside dns.resolver/dns.asyncresolver are replaced).  Exhaustive: "
+    "the prefix tree of all per-query outcome sequences over the 11-letter alphabet {answer, no-data, "
+    "NXDOMAIN, YXDOMAIN, SERVFAIL, REFUSED, malformed (FormError from the transport), malformed (17-CNAME "
+    "chain), truncation, timeout, network error}, pruned where the resolution ends before the script does "
+    "(each distinct behaviour is run once; after the script every query times out until the lifetime "
+    "expires), for 1-3 nameservers (Do53 objects, address strings with nameserver_ports, one DoH) x settings "
+    "(search list 0/2 entries, ndots 1/2, 1-3 label relative qname, retry_servfail, tcp, raise_on_no_answer, "
+    "cache none/Cache/LRUCache, lifetime 5/timeout 2 and lifetime 1/timeout 0.5 with 0.25 s steps so that the "
+    "lifetime boundary is hit exactly).  Quick: 26 covering settings, depth 3 (depth 2 for 3-server or cached "
+    "settings except every third), ~9.7k scripts.  Thorough: depth 3 on the full 2^6 x 3 = 192 grid (stops "
+    "after 300 s; ~180 settings reached), then depth 4 on the 26 settings (stops at 440 s; ~10 reached).  "
+    "Each cached setting is followed by a second resolution 10 s later (inside the TTL) and a third after "
+    "expiry, on the same resolver.  Seeded: random settings (also 4 servers, absolute names, ndots 0-3, "
+    "domain-as-search-list, search=None/False, rdtypes A/AAAA/MX/TXT/CNAME, source/source_port) and scripts "
+    "of length <= 14 with CNAME chains 0-18 and CNAME loops, random TTLs and SOA placement, rcodes "
+    "1/4/5/9/10, BadResponse/EOFError variants, NXDOMAIN-with-answer, clock steps in "
+    "{0,0.01,0.25,0.5,1,1.99} (1200 quick; until 530 s thorough, ~20k).  Direct: _get_qnames_to_try on 1-4 "
+    "label names x absolute/relative x search arg x default x 3 search lists x 2 domains x ndots {None,0..4} "
+    "(exhaustive, 1728); resolve_chaining on chain lengths 0-18 x {answer, no-data, NXDOMAIN, "
+    "NXDOMAIN+answer} x 5 TTL patterns x 3 answer/SOA TTL sets, shuffled answer sections, CNAME loops, QR "
+    "clear, CNAME qtype; _compute_timeout on a boundary grid (elapsed = lifetime -/+ 0.125, = lifetime).  "
+    "Every case is run on both twins and compared event by event.  rotate is off, clock steps are "
+    "non-negative, TSIG/EDNS off, the trio twin is not run (asyncio only), the back-off amounts are not "
+    "asserted (only that sleeps happen between rounds and identically in both twins).  'Never asked again' "
+    "is evaluated per candidate name (the server list is re-armed for every candidate name by design)."
 )
 
 IN = dns.rdataclass.IN
@@ -794,7 +801,7 @@ def _invariants(cfg, run):
         k = _eff_class(ev, cfg)
         if k in BROKEN_ALWAYS or (k == "S" and not cfg["retry_servfail"]):
             broken[key] = k
-        if ev["t0"] - start >= cfg["lifetime"] - EPS:
+        if ev["t0"] - start >= cfg["lifetime"]:  # the very floats the resolver sees
             problems.append(
                 (
                     "C16.lifetime",
@@ -805,7 +812,7 @@ def _invariants(cfg, run):
             break
         if k == "Tudp":
             nxt = events[i + 1] if i + 1 < len(events) else None
-            expired = ev["t1"] - start >= cfg["lifetime"] - EPS
+            expired = ev["t1"] - start >= cfg["lifetime"]
             ok = (
                 nxt is not None and nxt["t"] == "q" and nxt["srv"] == ev["srv"] and nxt["tr"] == "tcp"
                 and nxt["qname"] == ev["qname"]
@@ -1352,12 +1359,12 @@ def run(R):
     else:
         grid = _full_grid()
         for i, cfg in enumerate(grid):
-            if R.elapsed() > 330 or R.deadline():
+            if R.elapsed() > 300 or R.deadline():
                 R.note(f"thorough: full grid stopped at setting {i}/{len(grid)} (time)")
                 break
             ncases += _tree(R, cfg, 3, report, f"f{i}")
         for i, cfg in enumerate(_quick_grid()):
-            if R.elapsed() > 480 or R.deadline():
+            if R.elapsed() > 440 or R.deadline():
                 R.note(f"thorough: depth-4 trees stopped at setting {i} (time)")
                 break
             ncases += _tree(R, cfg, 4, report, f"q{i}")
@@ -1365,7 +1372,7 @@ def run(R):
     # ---- seeded long scripts
     nseed = 0
     target = 1200 if R.quick else 10**9
-    limit = 40.0 if R.quick else 575.0
+    limit = 40.0 if R.quick else 530.0
     while nseed < target and R.elapsed() < limit and not R.deadline():
         cfg = _rand_cfg(R.rng)
         script = [_rand_outcome(R.rng) for _ in range(R.rng.randint(1, 14))]
